@@ -591,9 +591,16 @@ func emitLocks(e *emitter, p *pkg) {
 
 	if p.name == "pa" {
 		// methods that read c.wrapped while not holding c.lock (syntactically: the method
-		// mentions c.wrapped and does not start with lock.Lock(); defer lock.Unlock())
+		// (any method of the type) mentions c.wrapped and does not start with lock.Lock(); defer lock.Unlock())
 		var unlocked []string
-		for _, key := range lockAPI["pa"] {
+		var keys []string
+		for key := range p.funcs {
+			if strings.HasPrefix(key, "ProtocolSwitchServerConn.") {
+				keys = append(keys, key)
+			}
+		}
+		sort.Strings(keys)
+		for _, key := range keys {
 			fd := p.funcs[key]
 			if fd == nil || fd.Body == nil {
 				continue
